@@ -153,6 +153,17 @@ class Normalizer:
                 return ("proj", args[0], "std::prelude::v1::Err", 0)
             if l in ("err",) and len(args) == 1 and "Result" in path:
                 return ("ctor?", "err-of", args[0]) if False else t
+            if l == "contains" and len(args) == 2:
+                coll = strip_adapters(args[0])
+                while coll[0] == "call" and isinstance(coll[1], str) and last(coll[1]) in ("as_slice", "as_ref", "to_vec", "clone") and len(coll[2]) == 1:
+                    coll = coll[2][0]
+                if coll[0] in ("array", "vec") and coll[1] and all(x[0] == "lit" for x in coll[1]) and len(coll[1]) <= 12:
+                    # membership in a table of literals is a disjunction of equalities
+                    acc = None
+                    for x in coll[1]:
+                        e = self.rewrite(("bin", "==", x, args[1]))
+                        acc = e if acc is None else ("bin", "||", acc, e)
+                    return acc
             if l == "len" and len(args) == 1 and path != "#len" and any(c in path for c in ("slice", "Vec", "vec::", "[T]")):
                 return ("call", "#len", (strip_adapters(args[0]),))
             if l == "unwrap_or" and len(args) == 2 and ("Option" in path or "Result" in path):
@@ -211,15 +222,24 @@ class Normalizer:
                 return neg(e) if dk == "some" else e
             if x[0] == "ctor" and last(x[1]) in ("Some", "None", "Ok", "Err") and dk:
                 return ("lit", {"Some": "some", "None": "none", "Ok": "ok", "Err": "err"}[last(x[1])] == dk)
-            if x[0] == "ite" and dk and all(y[0] == "ctor" and last(y[1]) in ("Some", "None", "Ok", "Err") for y in (x[2], x[3])):
-                # matches(if c { Ok(..) } else { Err(..) }, Ok(_))  ==  c
+            if x[0] == "ite" and dk and any(y[0] == "ctor" and last(y[1]) in ("Some", "None", "Ok", "Err") for y in (x[2], x[3])):
+                # matches(if c { Ok(..) } else { Err(..) }, Ok(_))  ==  c;   matches(if c { x } else { None }, Some(_))  ==  c && x is Some
                 a, b = (self.rewrite(("matches", y, d)) for y in (x[2], x[3]))
-                if a == ("lit", True) and b == ("lit", False):
+                T_, F_ = ("lit", True), ("lit", False)
+                if a == T_ and b == F_:
                     return x[1]
-                if a == ("lit", False) and b == ("lit", True):
+                if a == F_ and b == T_:
                     return neg(x[1])
                 if a == b:
                     return a
+                if b == F_:
+                    return self.rewrite(("bin", "&&", x[1], a))
+                if b == T_:
+                    return self.rewrite(("bin", "||", neg(x[1]), a))
+                if a == F_:
+                    return self.rewrite(("bin", "&&", neg(x[1]), b))
+                if a == T_:
+                    return self.rewrite(("bin", "||", x[1], b))
             if dk in ("some", "none") and x[0] == "hof" and x[1] == "filter" and self.is_option_hof(x):
                 # opt.filter(|v| c) is Some  <=>  opt is Some && c(v)
                 r = self.rewrite(("bin", "&&", self.rewrite(M(x[2], "some")), x[3]))
@@ -460,6 +480,8 @@ class Normalizer:
             return base[2][idx]
         if base[0] == "hof" and base[1] == "filter" and last(variant) == "Some" and idx == 0 and self.is_option_hof(base):
             return self.proj(base[2], variant, idx)
+        if base[0] == "ite" and last(variant) in ("Some", "Ok", "Err", "None") and False:
+            pass
         if base[0] == "ite" and last(variant) in ("Some", "Ok", "Err", "None"):
             # the payload of variant V of `if c { Other(..) } else { x }` can only come from x
             a, b = base[2], base[3]
